@@ -292,6 +292,8 @@ pub fn run(u: &mut Universe, b: &Batch, st: &mut Stats) {
                                 continue;
                             }
                             k += 1;
+                            // (the few readlink sites - the containment checks - are all covered)
+                            let stride = if e == libc::ENAMETOOLONG { 1 } else { stride };
                             if k % shards != shard || (k / shards) % stride != 0 {
                                 continue;
                             }
